@@ -208,7 +208,7 @@ def cases(tier):
 
 ASSUMPTIONS = ["M3 (paper): if for an arbitrary but fixed byte address every read returns the last enabled write to it, the device is a flat byte memory",
                "M5 (paper): a stateless translator that maps every master cycle to exactly the specified slave cycles and returns their data is, in front of a flat byte memory, a flat byte memory under the mapped address function",
-               "wishbone.Cache: the backing memory is an abstract environment of which only the tracked byte is modelled (ghost bk); geometries from a grid (line = 1/2, 1, 2, 4 master words)", "not covered yet (tier 2): SRAM burst cycles (cti/bte), DownConverter burst tag translation, err forwarding in DownConverter"]
+               "wishbone.Cache: the backing memory is an abstract environment of which only the tracked byte is modelled (ghost bk); geometries from a grid (line = 1/2, 1, 2, 4 master words)", "SRAM burst cycles (cti/bte) are in C07_sram_burst.py; not covered: DownConverter burst tag translation, err forwarding in DownConverter"]
 
 # ---------------------------------------------------------------------------------------------------------------------------
 # wishbone.Cache (write-back): symbolic-address method with an ABSTRACT backing memory as environment (only its content at the
